@@ -29,7 +29,15 @@ theorem tf_rtDone_poll {s s' : State} {t : Tid} {i : Nat} {time : Deadline}
     cases h
     simp only [setPc_pc, setPc_fr, setFr_fr, if_true]
     refine tf_congr (s := s) rfl rfl rfl ?_
-    refine ⟨fun ht => (by rw [hf.why] at ht; cases ht), fun k hk => (by rw [hf.why] at hk; cases hk), fun _ _ => hready hd⟩
+    refine ⟨fun ht => (by rw [hf.why] at ht; cases ht), fun k hk => (by rw [hf.why] at hk; cases hk), fun _ _ => hready hd, ?_⟩
+    intro _ hcv
+    have hsr := hready hd
+    unfold sReady at hsr
+    obtain ⟨c, hc⟩ := hcv
+    simp only at hc
+    rw [hc] at hsr
+    obtain ⟨r, hr, _⟩ := hsr
+    rw [hf.recs] at hr; cases hr
   · cases h
     simp only [setPc_pc, setPc_fr, if_true]
     exact tf_congr (s := s) rfl rfl rfl (tf_pollNext hf hr _ hw)
@@ -113,12 +121,15 @@ theorem PostF.semFreed {s : State} {f : Frame} (v b) (h : PostF s f) : PostF s {
   { h with }
 theorem PostF.freedOnly {s : State} {f : Frame} (b) (h : PostF s f) : PostF s { f with freed := b } := { h with }
 
+theorem DeqF.setUnl {s : State} {f : Frame} (u : List Unl) (h : DeqF s f) : DeqF s { f with deqUnl := u } := { h with }
+
 theorem tf_deqDone {s s' : State} {t : Tid} {j : Nat} {res : Bool}
     (hd : InDeq (s.fr t)) (hw : Waited s (s.fr t) (s.fr t).count) (h0 : DeqF s (s.fr t))
     (hl : (s.fr t).deqRes.length = j) (hjr : j < (s.fr t).recs.length)
     (hres : ResF s (s.fr t) j res ∨ (isCvAt (s.fr t) j ∧ ((s.fr t).why = .readyAt j → res = false)))
     (h : deqDone s t j res = .ok s') : TF s' (s'.pc t) (s'.fr t) := by
-  have hpush := deqF_push h0 hl hjr hres
+  have hpush0 := deqF_push h0 hl hjr hres
+  have hpush := fun u => DeqF.setUnl u hpush0
   unfold deqDone at h
   dsimp only at h
   split at h
@@ -126,18 +137,17 @@ theorem tf_deqDone {s s' : State} {t : Tid} {j : Nat} {res : Bool}
     cases h
     simp only [setPc_pc, setPc_fr, setFr_fr, if_true]
     refine tf_congr (s := s) rfl rfl rfl ?_
-    exact tf_deqNext (by exact hw) hpush (by simp; omega) hd.len hlt
+    exact tf_deqNext (by exact hw) (hpush _) (by simp; omega) hd.len hlt
   · rename_i hlt
     cases h
     simp only [setPc_pc, setPc_fr, if_true]
     refine tf_congr (s := s) (shared_unbindSem _ t).1 (shared_unbindSem _ t).2.1 (shared_unbindSem _ t).2.2 ?_
-    have hpost := postF_of_deqF hpush (by simp at hlt ⊢; omega)
     unfold unbindSem
     split
     · simp only [setSemUser_fr, setFr_fr, if_true]
-      exact tf_finNext (PostF.semFreed _ _ hpost)
+      exact tf_finNext (PostF.semFreed _ _ (postF_of_deqF (hpush _) (by simp at hlt ⊢; omega) (by simp; intro h0; have := hd.npos; rw [h0] at this; cases this)))
     · simp only [setFr_fr, if_true]
-      exact tf_finNext (PostF.freedOnly _ hpost)
+      exact tf_finNext (PostF.freedOnly _ (postF_of_deqF (hpush _) (by simp at hlt ⊢; omega) (by simp; intro h0; have := hd.npos; rw [h0] at this; cases this)))
 
 theorem tf_afterEnq {s s' : State} {t : Tid} {i : Nat} {res : Bool}
     (hp : PreLoop (s.fr t)) (hl : (s.fr t).recs.length = i + 1) (hwn : (s.fr t).why = .none)
